@@ -4,8 +4,11 @@ package c16
 
 import (
 	"os"
+	"sort"
 	"testing"
 
+	"github.com/nspcc-dev/neo-go/pkg/core/native/nativenames"
+	"github.com/nspcc-dev/neo-go/pkg/neotest"
 	"github.com/nspcc-dev/neo-go/pkg/smartcontract/callflag"
 	"github.com/nspcc-dev/neo-go/verifharness/vlib/ev"
 )
@@ -58,5 +61,48 @@ func flagsPart(t *testing.T, run *ev.Run) {
 			d3 /= 4
 		}
 		runChains(run, v, d3, ev.Tier() == "thorough")
+		if st == "all" {
+			// the same natives x flag sets table on a chain whose committee has put
+			// every non-safe native method on Policy's fee whitelist: the call
+			// path of a whitelisted method must still enforce its required flags
+			w := newEnv(t, st)
+			w.variant = "+fee-whitelisted"
+			ws2, log2 := w.setupWitnessState()
+			n := w.whitelistNativeMethods(log2)
+			run.Obs("native_methods_put_on_the_fee_whitelist", int64(n))
+			run.Note("setup_steps_failed_"+st+w.variant, log2.Failed)
+			if n > 0 {
+				runNatives(run, w, ws2, entry)
+			}
+		}
 	}
+}
+
+// whitelistNativeMethods puts every non-safe method of every active native
+// contract on Policy's fee whitelist (where that exists) and returns how many
+// were accepted.
+func (v *env) whitelistNativeMethods(log *setupLog) int {
+	pol, ok := v.natives[nativenames.Policy]
+	if !ok || pol.Manifest.ABI.GetMethod("setWhitelistFeeContract", 4) == nil {
+		return 0
+	}
+	var names []string
+	for n := range v.natives {
+		names = append(names, n)
+	}
+	sort.Strings(names)
+	n := 0
+	for _, name := range names {
+		c := v.natives[name]
+		for _, m := range c.Manifest.ABI.Methods {
+			if m.Safe {
+				continue
+			}
+			if v.chainTx(log, "whitelist "+name+"."+m.Name, []neotest.Signer{v.val, v.com}, pol.Hash, "setWhitelistFeeContract", c.Hash, m.Name, len(m.Parameters), int64(n%3)) {
+				n++
+			}
+		}
+	}
+	v.refreshNatives()
+	return n
 }
